@@ -124,6 +124,7 @@ func checkC05(ctx *Ctx, r *Report) {
 	c05FourthRound(ctx, r)
 	c05FifthRound(ctx, r)
 	c05SixthRound(ctx, r)
+	c05SeventhRound(ctx, r)
 	c18HintedBranchesVisited(ctx, r)
 	c07ObjectSetsKeyedByIdentity(ctx, r)
 	c01DefinitionIdentity(ctx, r)
@@ -2767,4 +2768,113 @@ func c05SixthRound(ctx *Ctx, r *Report) {
 	}
 	r.Count("hunted clauses of the reference rules (6th round)", n)
 	r.Floor("hunted clauses of the reference rules (6th round)", 3)
+}
+
+// c05SeventhRound — fifth hunt:
+//   - CUE: the name given to an import is scoped to its file (`import types "example.com/lib"` in a.cue, `import types
+//     "example.com/other"` in b.cue): PackageForNode takes the package from the import spec CUE bound the identifier
+//     to before it falls back on the package-wide table of names;
+//   - OpenAPI: a nested schema inlined from another document brings that document's local references (`#/components/
+//     schemas/Detail` written in common.yaml): walkRef records the document it inlines from, and getRefName gives a
+//     reference without file part to that document;
+//   - (finding) Java chain: RemoveIntersections redirects the references of the schema it is processing only — the
+//     references other packages hold to the objects it removes are left dangling.
+func c05SeventhRound(ctx *Ctx, r *Report) {
+	n := 0
+	// (a)
+	if p := ctx.Pkg("internal/simplecue"); p == nil {
+		r.Undecided("anchor lost: internal/simplecue")
+	} else if fd := c12Method(p, "PackageForNode"); fd == nil {
+		r.Undecided("anchor lost: simplecue.referenceResolver.PackageForNode")
+	} else {
+		info := p.TypesInfo
+		perFile := false
+		ast.Inspect(fd.Body, func(m ast.Node) bool {
+			ta, ok := m.(*ast.TypeAssertExpr)
+			if !ok || ta.Type == nil {
+				return true
+			}
+			if t := info.TypeOf(ta.Type); t != nil && strings.HasSuffix(t.String(), "ast.ImportSpec") {
+				perFile = true
+			}
+			return true
+		})
+		n++
+		r.Check(perFile, "frontier/cue-import-names-per-file", "simplecue.PackageForNode resolves the name of an import", fd.Pos(), "from the import spec CUE bound the identifier to",
+			"PackageForNode resolves `types.#Dog` with one table of import names per package, built from the merged syntax (where CUE renames the clash: types, types_1): a.cue `import types \"example.com/lib\"` and b.cue `import types \"example.com/other\"` give main.B.dog → lib.Dog, which does not exist (expected other.Dog)")
+	}
+	// (b)
+	if p := ctx.Pkg("internal/openapi"); p == nil {
+		r.Undecided("anchor lost: internal/openapi")
+	} else {
+		info := p.TypesInfo
+		wfd, gfd := c12Method(p, "walkRef"), c12Method(p, "getRefName")
+		if wfd == nil || gfd == nil {
+			r.Undecided("anchor lost: openapi.generator.walkRef / getRefName")
+		} else {
+			stored := map[*types.Var]bool{}
+			ast.Inspect(wfd.Body, func(m ast.Node) bool {
+				if as, ok := m.(*ast.AssignStmt); ok {
+					for _, l := range as.Lhs {
+						if sel, ok := ast.Unparen(l).(*ast.SelectorExpr); ok {
+							if f := fieldOf(info, sel); f != nil {
+								if b, ok := f.Type().Underlying().(*types.Basic); ok && b.Info()&types.IsString != 0 {
+									stored[f] = true
+								}
+							}
+						}
+					}
+				}
+				return true
+			})
+			consults := false
+			ast.Inspect(gfd.Body, func(m ast.Node) bool {
+				if sel, ok := m.(*ast.SelectorExpr); ok && stored[fieldOf(info, sel)] {
+					consults = true
+				}
+				return true
+			})
+			n++
+			r.Check(consults, "frontier/openapi-inlined-references-keep-their-document", "openapi.getRefName names a reference without file part", gfd.Pos(), "after the document walkRef recorded as the one a nested schema is inlined from",
+				"getRefName gives the package of the schema being built to every reference without file part, also inside a nested schema that walkRef inlines from another document: `details: {$ref: 'common.yaml#/components/schemas/Error/properties/details'}` (an array of `#/components/schemas/Detail`, written in common.yaml) becomes []main.Detail — which main does not declare (expected common.Detail)")
+		}
+	}
+	// (c)
+	if fn := ctx.LookupMethod("internal/ast/compiler", "RemoveIntersections", "Process"); fn == nil {
+		r.Undecided("anchor lost: compiler.RemoveIntersections.Process")
+	} else if fd, p := ctx.DeclOf(fn); fd != nil {
+		info := p.TypesInfo
+		// the references held by other packages: the handlers leave when the reference designates another package
+		// than the schema being processed; something else has to visit every schema once the replacements are known
+		named := namedOf(fn.Type().(*types.Signature).Recv().Type())
+		sameSchemaOnly := false
+		for _, mfd := range methodsOf(ctx, named) {
+			if !strings.HasPrefix(mfd.Name.Name, "redirect") {
+				continue
+			}
+			ast.Inspect(mfd.Body, func(m ast.Node) bool {
+				if is, ok := m.(*ast.IfStmt); ok && endsInExit(is.Body) {
+					c := exprString(is.Cond)
+					if strings.Contains(c, "ReferredPkg") && strings.Contains(c, "!= schema.Package") {
+						sameSchemaOnly = true
+					}
+				}
+				return true
+			})
+		}
+		visits := 0
+		ast.Inspect(fd.Body, func(m ast.Node) bool {
+			if c, ok := m.(*ast.CallExpr); ok {
+				if f := callee(info, c); f != nil && f.Name() == "VisitSchemas" {
+					visits++
+				}
+			}
+			return true
+		})
+		n++
+		r.Check(!sameSchemaOnly || visits >= 2, "traverse/removed-object-references-rewritten-across-packages", "compiler.RemoveIntersections redirects the references other packages hold", fd.Pos(), "a second visit of every schema follows the removals",
+			"RemoveIntersections works one schema at a time and its redirect handlers leave when a reference designates another package than the schema being processed: `lib {#Variable: {…}; #Alias: #Variable}` + `main {Root: {v: lib.#Variable}}` ends with lib holding Alias only and main.Root.v → lib.Variable, a class the Java jennies name and never generate")
+	}
+	r.Count("hunted clauses of the reference rules (7th round)", n)
+	r.Floor("hunted clauses of the reference rules (7th round)", 3)
 }
